@@ -19,7 +19,7 @@ Fixpoint nodupN (l : list N) : bool :=
   end.
 
 Definition wf_b (s : list conn) : bool :=
-  nodupN (map cn_id s) && forallb (fun c => nodupN (names c)) s.
+  nodupN (map cn_id s) && forallb (fun c => nodupN (snapshot c)) s.
 
 Definition oconn_eqb (a b : oconn) : bool :=
   (oc_id a =? oc_id b) && eqb_listN (oc_chans a) (oc_chans b) && eqb_listN (oc_hub a) (oc_hub b).
@@ -36,11 +36,19 @@ Definition bag_eqb (a b : list ev) : bool :=
 
 (* model (fixed code) on the inputs = observed; effects compared as bags because the
    per-connection goroutines and Go map iteration leave the order open *)
+(* the push for a rejected attempt depends on whether the application answered before or
+   after the call read the channel map (both are allowed by the specification: at most one
+   push): left out of the model/implementation comparison *)
+Definition cancel_push (code : N) (nodes : list (list conn)) (e : ev) : bool :=
+  existsb (fun c => existsb (fun chn => ev_eqb e (EvPush (cn_id c) (ch_name chn) code)) (cancelled c))
+          (concat nodes).
+
 Definition corr (c : case) : bool :=
   let '(ns, evs) := cluster_unsubscribe (k_target c) (k_chan c) (k_code c) (k_nodes c) in
+  let keep := fun e => negb (cancel_push (k_code c) (k_nodes c) e) in
   wf_b (concat (k_nodes c)) &&
   list_eqb (list_eqb oconn_eqb) (map (map observe) ns) (o_conns c) &&
-  bag_eqb evs (o_evs c).
+  bag_eqb (filter keep evs) (filter keep (o_evs c)).
 
 (* the property decided on the observed behaviour; it speaks about the empty channel only *)
 Definition oracle (c : case) : bool :=
